@@ -137,7 +137,12 @@ def load_registered_codemods(ep_filter: Optional[Callable[[EntryPoint], bool]] =
     registry = CodemodRegistry()
     logger.debug("loading registered codemod collections")
 
-    for entry_point in set(entry_points().select(group="codemods")):
+    # Iterate in a fixed order: the iteration order of a set of entry points
+    # depends on the hash seed, and it decides the order codemods are registered in.
+    for entry_point in sorted(
+        set(entry_points().select(group="codemods")),
+        key=lambda ep: (ep.name, ep.value),
+    ):
         if ep_filter and not ep_filter(entry_point):
             logger.debug(
                 '- skipping codemod collection "%s" from "%s as requested"',
